@@ -48,4 +48,9 @@ class Aitken(SequenceTransformer):
 
         d2xn = dxn - dxn_1
 
-        return gxn - (d2xn.T @ dxn) / (d2xn.T @ d2xn) * dxn
+        squared_norm = d2xn.T @ d2xn
+        if squared_norm == 0.0:
+            # Two successive residuals coincide: the extrapolation is undefined.
+            return gxn
+
+        return gxn - (d2xn.T @ dxn) / squared_norm * dxn
